@@ -4,7 +4,9 @@ Every case works in its own fresh scratch directory (removed in a ``finally``), 
 explicitly in the loaded configuration (restored in a ``finally``) and drives the REAL writers / readers.
 Expected values are the plain numpy arrays the objects were built from (masked pixels -> 0, masks -> the
 same booleans); the overwrite clause is checked against a 3-state reference model {absent, A, B} by
-replaying every event history from a fresh directory.
+replaying every event history from a fresh directory, started from every state of the output directory
+(existing, 1..3 missing levels, bare file name). Configuration histories switch the DS9 flip option inside
+the running process between round trips; the reference model reads the option at every single call.
 """
 import hashlib
 import itertools
@@ -28,20 +30,39 @@ RULE = (
     "anisotropic) x flip_for_ds9 in {F,T} for Array2D (masked pixels must read back as 0) and Mask2D (incl. invert "
     "and resized_mask_shape), (c) every kernel shape x scales x flip for Kernel2D, (d) Imaging triples, each through "
     "all routes: file, file->from_primary_hdu, hdu_for_output->from_primary_hdu, hdu_for_output->file->from_fits, "
-    "hdu index 0/1 of a two-HDU file; (e) every writer x target kind (plain, missing parent directories, bare file "
-    "name in scratch cwd, ./name, relative dirs, pathlib) x overwrite x flip; (f) every event history up to the "
+    "hdu index 0/1 of a two-HDU file; (e) every writer (2D arrays, masked arrays, masks, kernels, 1D arrays, 1D masks, "
+    "util-level 2D / 1D writers, Imaging.output_to_fits) x target kind = state of the output directory path "
+    "{0,1,2 levels already existing} x {0,1,2,3 levels missing} x spelling {absolute str, relative str, ./-prefixed, "
+    "pathlib absolute, pathlib relative} incl. the bare file name in a scratch cwd (23 kinds, table TARGET_SPEC) x "
+    "overwrite x flip: the write must succeed, the content must sit at the absolute and at the given path, the "
+    "directories below the scratch directory must afterwards be exactly the chain named by the path, no stray files, "
+    "and the overwrite / no-overwrite semantics must hold for that spelling; (f) every event history up to the "
     "stated depth over {write A, write B} x {overwrite F,T} + delete per writer x flip, replayed from a fresh "
     "directory and compared after every event with the 3-state file model; after every successful write of a history "
     "the path is also read back through the LIBRARY reader (from_fits of the writer's class, Imaging.from_fits, "
     "util *_via_fits_from + header_obj_from) inside the same process, and values, shape and the header objects "
-    "(NAXIS, NAXIS1/2, PIXSCALE*) must be those of the content just written (A and B differ in shape and pixel scale), "
+    "(NAXIS, NAXIS1/2, PIXSCALE*) must be those of the content just written (A and B differ in shape and pixel scale); "
+    "(f') the same file model extended by the state of the output directory: state = (missing directory levels, "
+    "absent|A|B), initial states {directory exists, 1, 2, 3 missing levels, bare file name in the cwd}, events as in "
+    "(f) + rmtree (the harness removes the directories the writer had created, putting the directory back into its "
+    "initial state); a write that the model does not reject must succeed whatever levels are missing and leaves exactly "
+    "the directory chain of the path; every shorter history from every initial state x writer x flip, "
+    "(h) CONFIGURATION HISTORIES inside one process: for every binary sequence s_0..s_k of settings of "
+    "general.fits.flip_for_ds9 (constant sequences, both switch directions, switch and switch back) the option is "
+    "switched in the running process (item assignment on the loaded configuration section, or conf.instance.push of a "
+    "configuration directory holding the other value) and after every switch fresh content that differs from its "
+    "vertical flip goes through hdu_for_output->from_primary_hdu, output_to_fits->from_fits, file->from_primary_hdu "
+    "and hdu_for_output->file->from_fits for Array2D, masked Array2D, Mask2D, Kernel2D, the util-level 2D functions, "
+    "Array1D, Mask1D, the util-level 1D functions and Imaging; reference model = the option is read at every call: "
+    "each round trip is the identity and the stored data are flipud(native) iff the option is on at the time of the write, "
     "(g) DERIVED masked arrays: every mask with >= 1 masked and >= 1 unmasked pixel x flip, the array built with "
     "store_native in {F,T} and then changed by arithmetic (+100, *2+1), with_new_array, item assignment at a masked "
     "pixel, or built with skip_mask=True from a buffer that is non-zero at masked pixels, written through the file and "
     "HDU routes: read-back must be where(mask, 0, values). non-trivial = content is "
     "orientation-sensitive (first axis >= 2 with injective values), or target is not a plain existing directory, or "
-    "the history writes onto an existing file at least once, or (derived) the stored buffer really holds non-zero "
-    "values at masked pixels"
+    "the history writes onto an existing file at least once or creates directories from a non-default directory state "
+    "/ after an rmtree / for a bare name, or the configuration history contains at least one switch, or (derived) the "
+    "stored buffer really holds non-zero values at masked pixels"
 )
 ASSUMPTIONS = [
     "I/O code is value-oblivious: injective, non-symmetric, signed float64 labellings that include 5e-30 and -6e30 "
@@ -51,7 +72,13 @@ ASSUMPTIONS = [
     "Mask2D.from_fits(resized_mask_shape=s) is compared with Mask2D.resized_from(s) of the original mask (the "
     "resize law itself is property C14); Imaging re-normalises its PSF on construction, so the PSF of an Imaging "
     "round trip is compared at 1e-12 relative, everything else exactly",
-    "flip_for_ds9 is switched per case by mutating conf.instance['general']['fits'] (same mechanism the library reads)",
+    "flip_for_ds9 is switched per case by mutating conf.instance['general']['fits'] (same mechanism the library reads); "
+    "configuration histories additionally switch it by conf.instance.push of a directory whose general.yaml holds only "
+    "fits.flip_for_ds9 (the pushed stack is restored in a finally block); they use the isotropic scale 0.7 only and "
+    "judge round trips made entirely under one setting (a file written under one setting and read under the other is "
+    "not a round trip of the property and is not judged)",
+    "directory levels are plain ASCII names without symlinks on the local file system; the rmtree event removes only "
+    "levels the writer itself had to create",
     "derived arrays use the isotropic scale only (the pixel scale is orthogonal to the masked-pixels-are-zero clause and is "
     "covered by the plain routes); in the overwrite histories the library read-back accepts values up to the DS9 flip "
     "(orientation belongs to the round-trip routes, A and B differ in shape so stale content cannot hide) and, for an "
@@ -60,12 +87,19 @@ ASSUMPTIONS = [
 BOUNDS = {
     "quick": "1D length <= 6 (all masks); 2D all masks of all shapes with <= 6 cells (1xN, Nx1, 2x2, 2x3, 3x2) + 4 fixed "
     "masks on 3x3, 4x3, 3x4, 2x5; kernels: all shapes <= 6 cells + 3x3, 4x3, 3x4, 5x5; 3 scales x 2 flips; Imaging: 5 frames x "
-    "4 psf shapes (incl. none) x 2 mask modes; targets: 9 writers x 9 target kinds x overwrite x flip; overwrite histories: "
-    "all sequences of depth 1..3 over 5 events (155) x 8 writers x 2 flips (library read-back after every successful write); "
+    "4 psf shapes (incl. none) x 2 mask modes; targets: 9 writers x 23 target kinds (existing levels <= 2, missing levels <= 3, "
+    "5 spellings) x overwrite x flip; overwrite histories: "
+    "all sequences of depth 1..3 over 5 events (155) x 8 writers x 2 flips (library read-back after every successful write) from "
+    "the 1-missing-level state + all sequences of depth 1..2 over 5 (+ rmtree = 6) events from the states {exists, 2 missing, "
+    "3 missing, bare file name} and those with an rmtree from the 1-missing-level state (156) x 8 writers x 2 flips; "
+    "configuration histories: all binary setting sequences of length 2..3 (12) x {assignment: 2D classes x frames 2x1, 2x3, 3x2; "
+    "1D classes x lengths 2, 3; Imaging 2x3 with a 3x1 psf | pushed configuration: frame 2x3 / length 3 per class} x 9 classes; "
     "derived arrays: 1D all mixed masks of length <= 5, 2D all mixed masks of all shapes with <= 4 cells and of 2x3, 3x2 + fixed "
     "masks on 1x5, 5x1, 1x6, 6x1, 3x3, 4x3, 3x4, 2x5; 5 (1D) / 6 (2D) derivations x {file, hdu} x 2 flips",
     "thorough": "1D length <= 9 (all masks); 2D all masks of all shapes with <= 9 cells + all masks of 4x3 and 3x4; kernels as "
-    "quick + 7x1, 1x7, 5x3; Imaging as quick; targets as quick; overwrite histories: all sequences of depth 1..4 (780) x 8 writers x 2 flips; "
+    "quick + 7x1, 1x7, 5x3; Imaging as quick; targets as quick; overwrite histories: all sequences of depth 1..4 (780) x 8 writers x 2 flips "
+    "+ all sequences of depth 1..3 from the other directory states (929); configuration histories: all binary sequences of length "
+    "2..4 (28) x both mechanisms x 2D frames 2x1, 2x3, 3x2, 2x2, 3x3, 4x3, 5x1, 1D lengths 2, 3, 5, 4 Imaging frame/psf pairs; "
     "derived arrays: 1D all mixed masks of length <= 7, 2D all mixed masks of all shapes with <= 6 cells + fixed masks on the 4 larger frames",
 }
 
@@ -74,7 +108,50 @@ SCALES1 = [0.7, 2.0]
 EVENTS = ["wA0", "wA1", "wB0", "wB1", "del"]
 OW_WRITERS = ["Array2D", "Mask2D", "Kernel2D", "Array1D", "Mask1D", "util2d", "util1d", "Imaging"]
 TG_WRITERS = OW_WRITERS + ["Array2D.masked"]
-TARGETS = ["plain", "dirs1", "dirs3", "bare", "dot", "reldirs", "pathobj", "pathobj-dirs", "bare-pathobj"]
+# target kind -> (spelling of the path handed to the writer, directory levels that already exist below the scratch
+# directory, directory levels that are missing when the writer is called). Spellings: abs = absolute str, rel = str
+# relative to the scratch cwd, dot = "./"-prefixed relative str, path / relpath = pathlib.Path (absolute / relative).
+TARGET_SPEC = {
+    "plain": ("abs", 0, 0),
+    "dirs1": ("abs", 0, 1),
+    "dirs2": ("abs", 0, 2),
+    "dirs3": ("abs", 0, 3),
+    "exist1": ("abs", 1, 0),
+    "exist2": ("abs", 2, 0),
+    "exist1-dirs1": ("abs", 1, 1),
+    "exist1-dirs2": ("abs", 1, 2),
+    "bare": ("rel", 0, 0),
+    "dot": ("dot", 0, 0),
+    "reldirs1": ("rel", 0, 1),
+    "reldirs": ("rel", 0, 2),
+    "reldirs3": ("rel", 0, 3),
+    "rel-exist1": ("rel", 1, 0),
+    "rel-exist1-dirs2": ("rel", 1, 2),
+    "dot-dirs2": ("dot", 0, 2),
+    "pathobj": ("path", 0, 0),
+    "pathobj-dirs1": ("path", 0, 1),
+    "pathobj-dirs": ("path", 0, 2),
+    "pathobj-dirs3": ("path", 0, 3),
+    "pathobj-exist1-dirs2": ("path", 1, 2),
+    "bare-pathobj": ("relpath", 0, 0),
+    "rel-pathobj-dirs": ("relpath", 0, 2),
+}
+TARGETS = list(TARGET_SPEC)
+LEVELS = ["a", "b", "c", "d", "e"]
+# initial directory states of the overwrite histories: (spelling, existing levels, missing levels); "dirs1" is the
+# state every depth-3 (depth-4) history starts from, the others are swept with the shorter histories
+OW_DIRSTATES = {
+    "exist": ("abs", 0, 0),
+    "dirs1": ("abs", 0, 1),
+    "dirs2": ("abs", 0, 2),
+    "dirs3": ("abs", 0, 3),
+    "bare": ("rel", 0, 0),
+}
+EVENTS_DIR = EVENTS + ["rmtree"]  # rmtree: the harness removes the directories the writer had to create
+# configuration histories (flip_for_ds9 switched inside one process)
+CFG_CLASSES_2D = ["Array2D", "Array2D.masked", "Mask2D", "Kernel2D", "util2d"]
+CFG_CLASSES_1D = ["Array1D", "Mask1D", "util1d"]
+CFG_MECHS = ["assign", "push"]
 FAMILY = {
     "Array2D": "numpy_array_2d_to_fits",
     "Array2D.masked": "numpy_array_2d_to_fits",
@@ -149,6 +226,24 @@ def cases(tier, seed):
             for ow in (0, 1):
                 for f in flips:
                     yield ["target", seed, f, wr, tk, ow]
+    # (h) configuration histories inside one process, shortest first
+    cdepth = 3 if quick else 4
+    cshapes = [(2, 1), (2, 3), (3, 2)] + ([] if quick else [(2, 2), (3, 3), (4, 3), (5, 1)])
+    clens = [2, 3] + ([] if quick else [5])
+    cimg = [((2, 3), 2)] + ([] if quick else [((3, 1), 3), ((4, 3), 0), ((3, 3), 1)])
+    for d in range(2, cdepth + 1):
+        for hist in itertools.product((0, 1), repeat=d):
+            for mech in CFG_MECHS:
+                # a pushed configuration costs ~50 ms per switch: quick tier = one frame per class for that mechanism
+                one = quick and mech == "push"
+                for cl in CFG_CLASSES_2D:
+                    for (h, w) in (cshapes[1:2] if one else cshapes):
+                        yield ["cfghist", seed, hist[0], cl, mech, list(hist), [h, w]]
+                for cl in CFG_CLASSES_1D:
+                    for n in (clens[1:2] if one else clens):
+                        yield ["cfghist", seed, hist[0], cl, mech, list(hist), [n]]
+                for (h, w), pi in cimg:
+                    yield ["cfghist", seed, hist[0], "Imaging", mech, list(hist), [h, w, pi]]
     # (d) imaging
     for (h, w) in IMG_FRAMES:
         for pi in range(len(IMG_PSFS)):
@@ -163,6 +258,16 @@ def cases(tier, seed):
             for wr in OW_WRITERS:
                 for f in flips:
                     yield ["overwrite", seed, f, wr, [EVENTS[e] for e in hist]]
+    # (f') the same file model started from every other state of the output directory (+ the rmtree event, which
+    # puts the directory back into its initial state), shorter histories
+    for d in range(1, depth):
+        for ds, (_, _, n_missing) in OW_DIRSTATES.items():
+            for hist in itertools.product(EVENTS_DIR if n_missing else EVENTS, repeat=d):
+                if ds == "dirs1" and "rmtree" not in hist:
+                    continue  # part of the sweep above
+                for wr in OW_WRITERS:
+                    for f in flips:
+                        yield ["overwrite", seed, f, wr, list(hist), ds]
     # (b) 2D arrays and masks, fewest cells first
     shapes = dom.shapes_cells(N)
     for (h, w) in shapes:
@@ -1002,6 +1107,205 @@ def run_imaging(v, td, seed, flip, h, w, pi, masked, si):
     attempt(v, "Imaging.file", file_route)
 
 
+# ----------------------------------------------------------------------------- configuration histories
+
+
+def _asym_mask(h, w, k):
+    """A mask with >= 1 masked and >= 1 unmasked pixel that differs from its vertical flip (h >= 2)."""
+    n = h * w
+    b = (k * 7 + 1) % (2 ** n)
+    for _ in range(2 ** n):
+        m = dom.mask_from_bits(h, w, b)
+        if m.any() and not m.all() and not np.array_equal(m, np.flipud(m)):
+            return m
+        b = (b + 1) % (2 ** n)
+    raise RuntimeError("harness: no asymmetric mask on %dx%d" % (h, w))
+
+
+class _CfgSwitch:
+    """Switches general.fits.flip_for_ds9 inside the running process, by item assignment on the loaded section (what
+    run_case does) or by pushing a configuration directory that holds the other value (conf.instance.push)."""
+
+    def __init__(self, td, mech):
+        from autoconf import conf
+
+        self.conf = conf
+        self.mech = mech
+        self.td = td
+        self.saved = list(conf.instance.configs)
+        self.n = 0
+
+    def set(self, flag):
+        conf = self.conf
+        if self.mech == "assign":
+            conf.instance["general"]["fits"]["flip_for_ds9"] = bool(flag)
+        else:
+            self.n += 1
+            d = os.path.join(self.td, "cfg_%d_%d" % (self.n, int(flag)))
+            os.makedirs(d)
+            with open(os.path.join(d, "general.yaml"), "w") as f:
+                f.write("fits:\n  flip_for_ds9: %s\n" % ("true" if flag else "false"))
+            conf.instance.push(new_path=d)
+        if bool(conf.instance["general"]["fits"]["flip_for_ds9"]) != bool(flag):
+            raise RuntimeError("harness: cannot switch flip_for_ds9 by %s" % self.mech)
+
+    def restore(self):
+        if self.mech == "push":
+            self.conf.instance.configs = self.saved  # also drops the merged dictionary; run_case re-applies its own value
+
+
+def _cfg_io(aa, cl, shape, seed, k):
+    """Content of step k (fresh, injective, not symmetric under a vertical flip / reversal) for class `cl` and the
+    library calls under test. Returns dict(exp, raw, dtype, to_file, hdu, from_file, from_hdu, scales)."""
+    ps = 0.7
+    hd_ps = {"PIXSCALE": ps}
+    if cl in CFG_CLASSES_2D:
+        h, w = shape
+        vals = vals_for(seed, h * w, "cfg", cl, h, w, k).reshape(h, w)
+        m = _asym_mask(h, w, k)
+        nat = lambda o: np.array(o.native)  # noqa: E731
+        if cl == "Array2D":
+            o = aa.Array2D.no_mask(values=vals.copy(), pixel_scales=ps)
+            rd = lambda p: aa.Array2D.from_fits(file_path=p, pixel_scales=ps)  # noqa: E731
+            return dict(exp=vals, raw=vals, dtype="float64", to_file=o.output_to_fits, hdu=lambda: o.hdu_for_output,
+                        from_file=rd, from_hdu=lambda hd: aa.Array2D.from_primary_hdu(primary_hdu=hd), nat=nat, eps=(ps, ps))
+        if cl == "Array2D.masked":
+            o = aa.Array2D(values=vals.copy(), mask=aa.Mask2D(mask=m.copy(), pixel_scales=ps))
+            e = np.where(m, 0.0, vals)
+            rd = lambda p: aa.Array2D.from_fits(file_path=p, pixel_scales=ps)  # noqa: E731
+            return dict(exp=e, raw=e, dtype="float64", to_file=o.output_to_fits, hdu=lambda: o.hdu_for_output,
+                        from_file=rd, from_hdu=lambda hd: aa.Array2D.from_primary_hdu(primary_hdu=hd), nat=nat, eps=(ps, ps))
+        if cl == "Kernel2D":
+            o = aa.Kernel2D.no_mask(values=vals.copy(), pixel_scales=ps)
+            rd = lambda p: aa.Kernel2D.from_fits(file_path=p, hdu=0, pixel_scales=ps)  # noqa: E731
+            return dict(exp=vals, raw=vals, dtype="float64", to_file=o.output_to_fits, hdu=lambda: o.hdu_for_output,
+                        from_file=rd, from_hdu=lambda hd: aa.Kernel2D.from_primary_hdu(primary_hdu=hd), nat=nat, eps=(ps, ps))
+        if cl == "Mask2D":
+            o = aa.Mask2D(mask=m.copy(), pixel_scales=ps)
+            rd = lambda p: aa.Mask2D.from_fits(file_path=p, pixel_scales=ps)  # noqa: E731
+            return dict(exp=m, raw=m.astype(float), dtype="bool", to_file=o.output_to_fits, hdu=lambda: o.hdu_for_output,
+                        from_file=rd, from_hdu=lambda hd: aa.Mask2D.from_primary_hdu(primary_hdu=hd), nat=lambda o: np.array(o), eps=(ps, ps))
+        if cl == "util2d":
+            u = aa.util.array_2d
+            return dict(exp=vals, raw=vals, dtype="float64",
+                        to_file=lambda file_path: u.numpy_array_2d_to_fits(array_2d=vals.copy(), file_path=file_path, header_dict=hd_ps),
+                        hdu=lambda: u.hdu_for_output_from(array_2d=vals.copy(), header_dict=hd_ps),
+                        from_file=lambda p: u.numpy_array_2d_via_fits_from(file_path=p, hdu=0),
+                        from_hdu=lambda hd: aa.Array2D.from_primary_hdu(primary_hdu=hd).native, nat=lambda o: np.array(o), eps=None)
+    else:
+        (n,) = shape
+        vals = vals_for(seed, n, "cfg", cl, n, k)
+        m = np.zeros(n, dtype=bool)
+        m[(k + 1) % n if n > 2 else k % 2] = True
+        if n > 2 and np.array_equal(m, m[::-1]):
+            m[0] = True
+        nat = lambda o: np.array(o.native)  # noqa: E731
+        if cl == "Array1D":
+            o = aa.Array1D(values=vals.copy(), mask=aa.Mask1D(mask=m.copy(), pixel_scales=(ps,)))
+            rd = lambda p: aa.Array1D.from_fits(file_path=p, pixel_scales=ps)  # noqa: E731
+            return dict(exp=np.where(m, 0.0, vals), raw=None, dtype="float64", to_file=o.output_to_fits, hdu=lambda: o.hdu_for_output,
+                        from_file=rd, from_hdu=lambda hd: aa.Array1D.from_primary_hdu(primary_hdu=hd), nat=nat, eps=(ps,))
+        if cl == "Mask1D":
+            o = aa.Mask1D(mask=m.copy(), pixel_scales=(ps,))
+            rd = lambda p: aa.Mask1D.from_fits(file_path=p, pixel_scales=ps)  # noqa: E731
+            return dict(exp=m, raw=None, dtype="bool", to_file=o.output_to_fits, hdu=lambda: o.hdu_for_output,
+                        from_file=rd, from_hdu=lambda hd: aa.Mask1D.from_primary_hdu(primary_hdu=hd), nat=lambda o: np.array(o), eps=(ps,))
+        if cl == "util1d":
+            u = aa.util.array_1d
+            return dict(exp=vals, raw=None, dtype=None,
+                        to_file=lambda file_path: u.numpy_array_1d_to_fits(array_1d=vals.copy(), file_path=file_path, header_dict=hd_ps),
+                        hdu=lambda: u.hdu_for_output_from(array_1d=vals.copy(), header_dict=hd_ps),
+                        from_file=lambda p: np.asarray(u.numpy_array_1d_via_fits_from(file_path=p, hdu=0), dtype=float),
+                        from_hdu=lambda hd: aa.Array1D.from_primary_hdu(primary_hdu=hd).native, nat=lambda o: np.array(o), eps=None)
+    raise ValueError(cl)
+
+
+def run_cfghist(v, td, seed, flip, cl, mech, hist, shape):
+    """Round trips under hist[0], then the option is switched in this process to hist[1], ... and the round trips are
+    repeated with fresh content. The reference model is stateless: every writer flips and every reader un-flips iff
+    the option is on AT THAT CALL, so each round trip is the identity and the raw data are flipud(native) iff on."""
+    import autoarray as aa
+    from astropy.io import fits
+
+    hist = [int(x) for x in hist]
+    switches = sum(1 for a, b in zip(hist, hist[1:]) if a != b)
+    v.nontrivial = switches > 0
+    v.outcome = "cfghist:%s:%s:switches=%d" % (mech, "1d" if len(shape) == 1 else "2d", switches)
+    sw = _CfgSwitch(td, mech)
+    pre = "cfg-history:%s" % cl
+
+    def chk(route, got, exp, ctx, dtype=None):
+        got = np.asarray(got)
+        kind = mismatch(got, np.asarray(exp))
+        ok = v.ok(kind is None, "%s.%s:%s" % (pre, route, kind or "values"),
+                  lambda: "%s %s under settings [%s] (switched by %s), step %d, flip_for_ds9=%s now: got %s, expected %s"
+                  % (cl, route, ctx, mech, len(ctx.split(",")) - 1, ctx.split(",")[-1], got.tolist(), np.asarray(exp).tolist()))
+        if ok and dtype is not None:
+            v.ok(got.dtype == np.dtype(dtype), "%s.%s:dtype" % (pre, route), lambda: "dtype %s" % got.dtype)
+
+    try:
+        for k, s_now in enumerate(hist):
+            sw.set(s_now)
+            ctx = ",".join(str(x) for x in hist[: k + 1])
+            d = os.path.join(td, "step%d" % k)
+            os.makedirs(d)
+            if cl == "Imaging":
+                h, w, pi = shape
+                pshape = IMG_PSFS[pi]
+                pshape = None if pshape is None else tuple(pshape)
+                im, exp = _make_imaging(aa, seed + 10 * k, h, w, pshape, False, 0.7)
+                dp, pp, npth = (os.path.join(d, x) for x in ("data.fits", "psf.fits", "noise_map.fits"))
+
+                def img_route():
+                    im.output_to_fits(data_path=dp, psf_path=pp, noise_map_path=npth)
+                    im2 = aa.Imaging.from_fits(pixel_scales=0.7, data_path=dp, noise_map_path=npth,
+                                               psf_path=pp if pshape is not None else None)
+                    _check_imaging(v, pre + ".file", im2, exp, (0.7, 0.7))
+                    for label, path, e in (("data", dp, exp["data"]), ("noise_map", npth, exp["noise_map"])):
+                        chk("file:%s:raw" % label, raw_hdus(path)[0][0], raw_expected(e, s_now), ctx)
+
+                attempt(v, pre + ".file", img_route)
+                continue
+            c = _cfg_io(aa, cl, shape, seed, k)
+            exp, nat = c["exp"], c["nat"]
+            p, p2 = os.path.join(d, "f.fits"), os.path.join(d, "h.fits")
+
+            def hdu_route():
+                hd = c["hdu"]()
+                if c["raw"] is not None:
+                    chk("hdu:raw", hd.data, raw_expected(c["raw"], s_now), ctx)
+                b = c["from_hdu"](hd)
+                chk("hdu", nat(b), exp, ctx, c["dtype"])
+                if c["eps"] is not None:
+                    chk_scale(v, pre + ".hdu", b.pixel_scales, c["eps"])
+
+            attempt(v, pre + ".hdu", hdu_route)
+
+            def file_route():
+                c["to_file"](file_path=p)
+                if c["raw"] is not None:
+                    chk("file:raw", raw_hdus(p)[0][0], raw_expected(c["raw"], s_now), ctx)
+                chk("file", nat(c["from_file"](p)), exp, ctx, c["dtype"])
+
+            attempt(v, pre + ".file", file_route)
+
+            def file_hdu_route():
+                with fits.open(p, memmap=False) as hl:
+                    b = c["from_hdu"](hl[0])
+                chk("file-hdu", nat(b), exp, ctx, c["dtype"])
+
+            if os.path.exists(p):
+                attempt(v, pre + ".file-hdu", file_hdu_route)
+
+            def hdu_file_route():
+                c["hdu"]().writeto(p2)
+                chk("hdu-file", nat(c["from_file"](p2)), exp, ctx, c["dtype"])
+
+            attempt(v, pre + ".hdu-file", hdu_file_route)
+    finally:
+        sw.restore()
+
+
 # ----------------------------------------------------------------------------- writers for target / overwrite cases
 
 
@@ -1205,31 +1509,52 @@ def _exc_site(e):
     return site, inner, " <- ".join("%s:%d" % (os.path.basename(f.filename), f.lineno) for f in reversed(tb[-4:]))
 
 
+def _target_path(td, spec, fname="x.fits"):
+    """(path handed to the writer, the same path as an absolute str, whether the caller must chdir into td) for a
+    (spelling, existing levels, missing levels) spec; the existing levels are created here, by the harness."""
+    spelling, n_exist, n_missing = spec
+    levels = LEVELS[: n_exist + n_missing]
+    if n_exist:
+        os.makedirs(os.path.join(td, *LEVELS[:n_exist]), exist_ok=True)
+    absp = os.path.join(td, *(levels + [fname]))
+    relp = "/".join(levels + [fname])
+    if spelling == "abs":
+        p = absp
+    elif spelling == "rel":
+        p = relp
+    elif spelling == "dot":
+        p = "./" + relp
+    elif spelling == "path":
+        p = Path(td).joinpath(*(levels + [fname]))
+    elif spelling == "relpath":
+        p = Path(*(levels + [fname]))
+    else:
+        raise ValueError(spelling)
+    return p, absp, spelling in ("rel", "dot", "relpath")
+
+
+def _dirs_under(td):
+    out = []
+    for root, ds, _ in os.walk(td):
+        for d in ds:
+            out.append(os.path.relpath(os.path.join(root, d), td))
+    return sorted(out)
+
+
+def _chain(n):
+    """Relative names of the directory chain a/, a/b/, ... of n levels."""
+    return sorted(os.path.join(*LEVELS[: k + 1]) for k in range(n))
+
+
 def run_target(v, td, seed, flip, writer, tkind, overwrite):
     import autoarray as aa
 
     io = _IO(aa, writer, seed)
     v.nontrivial = tkind != "plain"
-    rel = tkind in ("bare", "dot", "reldirs", "bare-pathobj")
+    spec = TARGET_SPEC[tkind]
+    p, absp, rel = _target_path(td, spec)
     if rel:
         os.chdir(td)
-    p = {
-        "plain": os.path.join(td, "x.fits"),
-        "dirs1": os.path.join(td, "a", "x.fits"),
-        "dirs3": os.path.join(td, "a", "b", "c", "x.fits"),
-        "bare": "x.fits",
-        "dot": "./x.fits",
-        "reldirs": "a/b/x.fits",
-        "pathobj": Path(td) / "x.fits",
-        "pathobj-dirs": Path(td) / "a" / "b" / "x.fits",
-        "bare-pathobj": Path("x.fits"),
-    }[tkind]
-    absp = {
-        "bare": os.path.join(td, "x.fits"),
-        "dot": os.path.join(td, "x.fits"),
-        "reldirs": os.path.join(td, "a", "b", "x.fits"),
-        "bare-pathobj": os.path.join(td, "x.fits"),
-    }.get(tkind, str(p))
     bare = tkind in ("bare", "bare-pathobj")
     fam = FAMILY[writer]
     try:
@@ -1269,6 +1594,9 @@ def run_target(v, td, seed, flip, writer, tkind, overwrite):
             found.append(os.path.join(root, f))
     want = sorted(io.files(absp))
     v.ok(sorted(found) == want, pre + ":stray-files", lambda: "files %s, expected %s" % (sorted(found), want))
+    # the missing directory levels were created - exactly those of the path
+    dirs, wdirs = _dirs_under(td), _chain(spec[1] + spec[2])
+    v.ok(dirs == wdirs, pre + ":directories", lambda: "directories below the scratch directory %s, expected %s" % (dirs, wdirs))
     # the overwrite semantics hold for this path spelling too: replace with overwrite=True, refuse with overwrite=False
     try:
         io.write("B", p, True)
@@ -1347,28 +1675,57 @@ def _check_reader(v, io, which, p, hist):
     attempt(v, "overwrite:%s:reader" % wr, go)
 
 
-def run_overwrite(v, td, seed, flip, writer, events):
+def model_step_dir(state, ev, n_missing):
+    """File model with the state of the output directory: state = (missing directory levels, 'absent'|'A'|'B').
+    A write that is not rejected creates every missing level; deleting the file leaves the directories; rmtree puts the
+    directory back into its initial state. Returns (next_state, must_raise)."""
+    missing, fstate = state
+    if ev == "rmtree":
+        return (n_missing, "absent"), False
+    nxt, must_raise = model_step(fstate, ev)
+    if ev == "del" or must_raise:
+        return (missing, nxt), must_raise
+    return (0, nxt), False
+
+
+def run_overwrite(v, td, seed, flip, writer, events, dirstate="dirs1"):
     import autoarray as aa
 
     io = _IO(aa, writer, seed)
     fam = FAMILY[writer]
-    p = os.path.join(td, "o", "x.fits")
-    state = "absent"
-    rej = repl = 0
+    spec = OW_DIRSTATES[dirstate]
+    n_exist, n_missing = spec[1], spec[2]
+    p, absp, rel = _target_path(td, spec)
+    if rel:
+        os.chdir(td)
+    created_root = os.path.join(td, *LEVELS[: n_exist + 1]) if n_missing else None
+    state = (n_missing, "absent")
+    rej = repl = made = 0
     for k, ev in enumerate(events):
         hist = ",".join(events[: k + 1])
-        if ev == "del":
-            for f in io.files(p):
-                if os.path.exists(f):
-                    os.remove(f)
-            state = "absent"
-            obs = io.observe(p)
+        if dirstate != "dirs1":
+            hist = "%s | %s" % (dirstate, hist)
+        if ev in ("del", "rmtree"):
+            if ev == "del":
+                for f in io.files(absp):
+                    if os.path.exists(f):
+                        os.remove(f)
+            elif created_root is not None and os.path.exists(created_root):
+                shutil.rmtree(created_root)
+            state, _ = model_step_dir(state, ev, n_missing)
+            obs = io.observe(absp)
             v.ok(obs == "absent", "overwrite:harness-delete", lambda: "after %s: %s" % (hist, obs))
+            v.ok(_dirs_under(td) == _chain(n_exist + n_missing - state[0]), "overwrite:harness-delete",
+                 lambda: "after %s: directories %s" % (hist, _dirs_under(td)))
             continue
-        nxt, must_raise = model_step(state, ev)
+        (nmiss, nxt), must_raise = model_step_dir(state, ev, n_missing)
+        missing, fstate = state
         which, ow = ev[1], ev[2] == "1"
-        evclass = ("existing" if state != "absent" else "absent") + (":overwrite" if ow else ":no-overwrite")
-        before = io.digest(p)
+        evclass = ("existing" if fstate != "absent" else "absent") + (":overwrite" if ow else ":no-overwrite")
+        if fstate == "absent" and dirstate != "dirs1":
+            # the state of the output directory the write meets (the default history start keeps the plain class names)
+            evclass = "absent[%s]" % ("bare-file-name" if dirstate == "bare" else "missing-dirs=%d" % missing) + evclass[6:]
+        before = io.digest(absp)
         raised = None
         try:
             io.write(which, p, ow)
@@ -1377,29 +1734,39 @@ def run_overwrite(v, td, seed, flip, writer, events):
         if must_raise:
             rej += 1
             v.ok(raised is not None, "overwrite:%s:%s:did-not-raise" % (fam, evclass),
-                 lambda: "%s history [%s]: write %s with overwrite=False onto a file holding %s did not raise" % (writer, hist, which, state))
-            after = io.digest(p)
+                 lambda: "%s history [%s]: write %s with overwrite=False onto a file holding %s did not raise" % (writer, hist, which, fstate))
+            after = io.digest(absp)
             v.ok(after == before, "overwrite:%s:%s:file-modified" % (fam, evclass),
-                 lambda: "%s history [%s]: rejected write changed the file bytes (now %s)" % (writer, hist, io.observe(p)))
+                 lambda: "%s history [%s]: rejected write changed the file bytes (now %s)" % (writer, hist, io.observe(absp)))
             if raised is not None:
                 v.ok(isinstance(raised, OSError), "overwrite:%s:%s:exception-type" % (fam, evclass),
                      lambda: "%s raised %s: %s" % (writer, type(raised).__name__, str(raised)[:120]))
         else:
-            if state != "absent":
+            if fstate != "absent":
                 repl += 1
+            if (missing >= 1 and (dirstate != "dirs1" or "rmtree" in events[:k])) or (dirstate == "bare" and fstate == "absent"):
+                made += 1  # the write had to create directories from a state the plain sweep does not start in / bare name
             v.ok(raised is None, "overwrite:%s:%s:raised" % (fam, evclass),
-                 lambda: "%s history [%s]: write %s overwrite=%s on state %s raised %s: %s | %s"
-                 % (writer, hist, which, ow, state, type(raised).__name__, str(raised)[:120], _exc_site(raised)[2]))
-        obs = io.observe(p)
+                 lambda: "%s history [%s]: write %s overwrite=%s on state %s (%d directory levels missing) raised %s: %s | %s"
+                 % (writer, hist, which, ow, fstate, missing, type(raised).__name__, str(raised)[:120], _exc_site(raised)[2]))
+        obs = io.observe(absp)
         if not v.ok(obs == nxt, "overwrite:%s:%s:content" % (fam, evclass),
                     lambda: "%s history [%s]: file holds %s, model says %s" % (writer, hist, obs, nxt)):
-            state = "diverged"
+            state = (nmiss, "diverged")
             break  # later events would be judged against a state the file is not in
-        state = nxt
+        dirs, wdirs = _dirs_under(td), _chain(n_exist + n_missing - nmiss)
+        v.ok(dirs == wdirs, "overwrite:%s:%s:directories" % (fam, evclass),
+             lambda: "%s history [%s]: directories below the scratch directory %s, model says %s" % (writer, hist, dirs, wdirs))
+        if rel:
+            obs_rel = io.observe(p)
+            v.ok(obs_rel == nxt, "overwrite:%s:%s:content-at-given-path" % (fam, evclass),
+                 lambda: "%s history [%s]: given path %r holds %s, model says %s" % (writer, hist, str(p), obs_rel, nxt))
+        state = (nmiss, nxt)
         if raised is None and not must_raise:
             _check_reader(v, io, which, p, hist)
-    v.nontrivial = (rej + repl) > 0
-    v.outcome = "overwrite:final=%s:rejected=%d:replaced=%d" % (state, rej, repl)
+    v.nontrivial = (rej + repl + made) > 0
+    v.outcome = "overwrite:%s:final=%s:rejected=%d:replaced=%d" % (dirstate, state[1], rej, repl) if dirstate != "dirs1" \
+        else "overwrite:final=%s:rejected=%d:replaced=%d" % (state[1], rej, repl)
 
 
 RUNNERS = {
@@ -1413,4 +1780,5 @@ RUNNERS = {
     "overwrite": run_overwrite,
     "deriv2d": run_deriv2d,
     "deriv1d": run_deriv1d,
+    "cfghist": run_cfghist,
 }
